@@ -368,6 +368,10 @@ class App:
             ctx.probe('flag_audit_informative' if rho_g < 0.1 * tol else 'flag_audit_vacuous')
             ctx.require(opt < tol * (1 + 1e-6) + rho_g, 'C05', 'flag',
                         lambda: 'success reported but projected-gradient measure = %.6g >= tol %.6g' % (opt, tol), sig=sig0)
+            if driver == 'spg_solve':
+                ctx.require(opt < tol * (1 + 1e-6) + rho_g, 'C19', 'handover/flag',
+                            lambda: 'SPG driver: success flag does not refer to the new parameters (optimality %.6g, tol %.6g)' % (opt, tol),
+                            sig={'driver': 'spg'})
             # 5 convex clause
             if self.cfg['family'] == 'Qc':
                 xs = self.reference(xr, pnew)
